@@ -209,7 +209,7 @@ def check(ctx):
             return True if not c.is_exc else st
 
         def at_exit_s(kind, st, facts):
-            if kind == "return" and (cparam, True) in facts and not st:
+            if kind == "return" and not st and (cparam, False) not in facts:
                 return "cancel_remaining was requested but the group's scope is not cancelled"
             return None
 
